@@ -42,6 +42,7 @@ type caseT struct {
 	Input   []byte `json:"input"`
 	Quoted  string `json:"quoted"`
 	Kind    string `json:"kind"`
+	GoTest  string `json:"go_test,omitempty"`
 }
 
 func ctxOf(p *jsonref.PDA) string {
@@ -202,6 +203,11 @@ func run(c *core.Ctx) {
 			}
 			sig := core.Sig("fe="+m.Name+"."+g.entry, "mode="+bytemc.ModeOfKey(s.Key), "bytes="+bs, "ref="+s.Ref.Short(), "ctx="+ctxOf(s.Ref), g.kind)
 			cs := caseT{Machine: m.Name, Entry: g.entry, Input: g.wit, Quoted: fmt.Sprintf("%q", g.wit), Kind: g.kind}
+			if g.entry == "whole" {
+				cs.GoTest = mach.GoTest(m.Name, "whole", [][]byte{g.wit}, false)
+			} else {
+				cs.GoTest = mach.GoTest(m.Name, "reader", mach.Bytewise(g.wit), false)
+			}
 			c.Fail(sig, cs, len(g.wit), g.exp, g.obs)
 		}
 	}
